@@ -35,6 +35,7 @@ type mapCase struct {
 type VRegex struct {
 	Var     string
 	Pattern string
+	Param   bool // an unknown regexp received as a parameter
 }
 
 type globalInfo struct {
@@ -210,7 +211,7 @@ func (fx *FuncCtx) globalVal1(obj *types.Var, e *Ev) Val {
 					if av == nil {
 						panic(unsupported{"regexp pattern of " + obj.Name() + " is not constant"})
 					}
-					return VRegex{obj.Name(), constant.StringVal(av)}
+					return VRegex{Var: obj.Name(), Pattern: constant.StringVal(av)}
 				}
 			}
 		}
